@@ -1641,6 +1641,67 @@ impl Gen<'_> {
         out.push(shout(typed_use(var(&v), ta)));
     }
 
+    /// A loop whose condition reads a flag that the body assigns: reset at the top, set again
+    /// before `next`, cleared before `comot` or at the end. A store that only the loop condition
+    /// reads (along the `next` edge or the back edge) is live.
+    fn flag_loop_idiom(&mut self, out: &mut Vec<Stmt>) {
+        self.budget -= 8;
+        let flag = self.fresh_name("fl");
+        let guard = self.fresh_name("i");
+        let rounds = self.rng.range(1, 4);
+        out.push(Stmt::Make { name: flag.clone(), init: Some(Expr::Bool(true)), decl: u32::MAX });
+        out.push(Stmt::Make { name: guard.clone(), init: Some(num(0)), decl: u32::MAX });
+        self.declare(VarInfo { name: flag.clone(), ty: Ty::Bool, frozen: true, fixed: false, lens: vec![] });
+        self.declare(VarInfo { name: guard.clone(), ty: Ty::Num, frozen: true, fixed: false, lens: vec![] });
+        let set = |v: bool| Stmt::Assign { name: flag.clone(), value: Expr::Bool(v), decl: u32::MAX };
+        let mut body: Vec<Stmt> = vec![Stmt::Assign { name: guard.clone(), value: bin(BinOp::Add, var(&guard), num(1)), decl: u32::MAX }];
+        let variant = self.rng.weighted(&[4, 2, 2, 2]);
+        match variant {
+            0 => {
+                // retry: cleared at the top, set again right before `next`
+                body.push(set(false));
+                body.push(Stmt::If {
+                    cond: bin(BinOp::Lt, var(&guard), num(rounds)),
+                    then_b: Block { stmts: vec![shout(plain("retry")), set(true), Stmt::Continue] },
+                    else_b: None,
+                });
+                body.push(shout(plain("settled")));
+            }
+            1 => {
+                // cleared right before `next`: the condition ends the loop
+                body.push(Stmt::If {
+                    cond: bin(BinOp::Gt, var(&guard), num(rounds)),
+                    then_b: Block { stmts: vec![set(false), Stmt::Continue] },
+                    else_b: None,
+                });
+                body.push(shout(var(&guard)));
+            }
+            2 => {
+                // set at the end of the body only (back edge)
+                body.push(set(false));
+                body.push(shout(var(&guard)));
+                body.push(Stmt::If { cond: bin(BinOp::Lt, var(&guard), num(rounds)), then_b: Block { stmts: vec![set(true)] }, else_b: None });
+            }
+            _ => {
+                // set before `next` inside a nested block, cleared before `comot`
+                body.push(set(false));
+                body.push(Stmt::If {
+                    cond: bin(BinOp::Lt, var(&guard), num(rounds)),
+                    then_b: Block { stmts: vec![Stmt::Block(Block { stmts: vec![set(true), Stmt::Continue] })] },
+                    else_b: Some(Block { stmts: vec![set(false), shout(plain("out")), Stmt::Break] }),
+                });
+            }
+        }
+        let cond = match self.rng.weighted(&[3, 2, 2]) {
+            0 => bin(BinOp::And, var(&flag), bin(BinOp::Lt, var(&guard), num(8))),
+            1 => bin(BinOp::And, bin(BinOp::Lt, var(&guard), num(8)), var(&flag)),
+            _ => bin(BinOp::And, Expr::Un(UnOp::Not, Box::new(Expr::Un(UnOp::Not, Box::new(var(&flag))))), bin(BinOp::Lt, var(&guard), num(8))),
+        };
+        out.push(Stmt::Loop { cond, body: Block { stmts: body } });
+        out.push(shout(var(&guard)));
+        out.push(shout(var(&flag)));
+    }
+
     /// An array of arrays built row by row, in place: rows start empty (a literal, or a copy of an
     /// empty variable) or with one element and grow through the nested receiver `m[r].push(e)`
     /// inside a loop body or a function, i.e. in frames that end before the rows are read.
@@ -1748,6 +1809,10 @@ impl Gen<'_> {
         }
         if !deep && self.budget > 10 && self.rng.chance(1, if p == Profile::Scope { 25 } else { 100 }) {
             self.type_shadow_idiom(out);
+            return false;
+        }
+        if !deep && self.budget > 10 && self.rng.chance(1, if p == Profile::Dead { 15 } else { 80 }) {
+            self.flag_loop_idiom(out);
             return false;
         }
         if p == Profile::Dead && self.rng.chance(1, 14) {
